@@ -710,7 +710,51 @@ def r07_6(ctx):
                        'inner weight cos(alpha/%d) must stay positive on the whole branch' % (k - 1))
 
 
+def r07_8(ctx):
+    """A BSplineFunc with a support override returns the generic restricted boundary function for EVERY side: the plain
+    coefficient slice has the full knot-vector support, so it is right only when no direction is restricted."""
+    f = ctx.prog.func(B + '.BSplineFunc.boundary')
+    iff = [s_ for s_ in own_nodes(f.node) if isinstance(s_, ast.If) and 'self._support_override' in src(s_.test)]
+    if not iff:
+        ctx.undecided('R07.8', f.qual, 'support override branch', f.node, 'not recognised')
+        return
+    top = iff[0]
+    uncond = bool(top.body) and any(isinstance(s_, ast.Return) and '_BaseGeoFunc.boundary' in src(s_) for s_ in top.body) \
+        and src(top.test).replace(' ', '') in ('self._support_override', 'self._support_overrideisnotNone')
+    nested = [s_ for s_ in ast.walk(top) if isinstance(s_, ast.If) and s_ is not top]
+    ctx.decide('R07.8', f.qual, src(top).split('\n')[0], True if uncond else (False if nested else None), top,
+               'every side of a function with restricted support goes through the generic boundary function' if uncond else
+               'with a support override the generic boundary is returned only under a further condition; otherwise the coefficient slice is '
+               'used, whose support is the full knot-vector support: a restriction in a tangential direction is dropped (image and bounding box '
+               'of the unrestricted side)', definite=True)
+
+
+def r07_9(ctx):
+    """The evaluators return floating-point values whatever the dtype of the control points: a result buffer allocated with
+    dtype=<coefficients>.dtype truncates values / derivatives of a spline with integer control points when they are stored,
+    while the sibling evaluators of the same object (which build their result by arithmetic) return exact floats."""
+    n = 0
+    for fi in ctx.prog.funcs_in(B, include_nested=False):
+        for c in ast.walk(fi.node):
+            if isinstance(c, ast.Call) and call_name(c) in ('np.empty', 'np.zeros', 'np.full', 'np.empty_like', 'np.zeros_like'):
+                dt = kwarg(c, 'dtype', 99)
+                if dt is None:
+                    continue
+                t = src(dt).replace(' ', '')
+                if t.endswith('coeffs.dtype') or t.endswith('.coeffs.dtype'):
+                    n += 1
+                    ctx.violated('R07.9', fi.qual, src(c)[:90], c,
+                                 'the result buffer inherits the dtype of the control points: for an integer coefficient array the computed '
+                                 '(floating point) values are truncated toward zero when stored -- grid_hessian of integer control points gives '
+                                 '[27 15 4 26 ...] where the exact second derivatives are [27. 15.75 4.5 27. ...], while grid_eval and '
+                                 'grid_jacobian of the same object are exact')
+    if n == 0:
+        ctx.met('R07.9', B, 'no evaluator buffer takes the coefficient dtype', None, 'results are float (or promoted by arithmetic)', where='pyiga/bspline.py')
+
+
 def run(ctx):
+    r07_9(ctx)
+    r07_8(ctx)
     r07_1(ctx)
     r07_7(ctx)
     r07_2(ctx)
